@@ -48,7 +48,7 @@ from vlib import c13_gen as G
 
 PROPERTY = 'C13'
 LEVEL = 'exploration'
-RULE = ('random function arrays over 1-8 Arguments (bool/int/float/complex, ndim 0-2), constants, ~40 numpy-API operations and, in '
+RULE = ('random function arrays over 1-8 Arguments (bool/int/float/complex, ndim 0-2 and, for about one in six signatures, ndim 3-4 with unequal axis lengths), constants, ~40 numpy-API operations and, in '
         'about half of the cases, geometry/bases/fields/gradients of one of 6 small meshes closed by topo.integral(degree=) or '
         'sample.bind, with nested replace nodes; per case one monitor family (replace 9/20, linearize 4/20, spellings 3/20, factor 2/20, '
         'values 2/20). non-trivial = the function has >= 2 operation nodes and the specification touches >= 1 argument the function '
@@ -230,6 +230,9 @@ def wrong_shapes(shape):
             out.append((n, m))
         if m > 1 and n > 1:
             out.append((1, 1))
+    else:
+        n = int(numpy.prod(shape, dtype=int))
+        out = [(), (n,), (1,) + tuple(shape), tuple(shape) + (1,), tuple(shape[::-1]), tuple(shape[1:]), (shape[1], shape[0]) + tuple(shape[2:]), (1,) + tuple(shape[1:])]
     return [s for s in dict.fromkeys(out) if tuple(s) != tuple(shape)]
 
 
@@ -297,6 +300,8 @@ def monitor_replace(case, res):
             res.count('replace/nested')
         if any(level > 0 for n, level in G.replace_nodes(E)):
             res.count('replace/inside-integrand')
+        if any(len(decl[k][0]) >= 3 for k, v in E[3] if k in decl and k in G.free(E[1])):
+            res.count('replace/argument-ndim>=3')
         if any(G.loop_capture_trigger(n) for n, level in G.replace_nodes(E)):
             res.count('replace/loop-in-replacement-of-looping-function')
         vcase = dict(kind='replace', index=case['index'], seed=case['seed'], decl=decl, f=case['f'], variants=[var], values=None)
@@ -390,6 +395,8 @@ def monitor_linearize(case, res):
         res.count('linearize/through-replace')
     if any(len(decl[k][0]) == 2 and decl[k][0][0] == decl[k][0][1] > 1 for k, v in live):
         res.count('linearize/square-matrix-argument')
+    if any(len(decl[k][0]) >= 3 for k, v in live):
+        res.count('linearize/argument-ndim>=3')
     listed, needed = set(arr.arguments), G.free(L)
     res.count('linearize/arguments-metadata/checked')
     if listed != needed:
@@ -521,6 +528,24 @@ def monitor_spellings(case, res):
             res.count(f'spellings/{kind}/agree')
 
 
+def monomial_coefficients(fac):
+    """Largest number of stored coefficients of a Monomial in the factored form (gate only; None if unknown)."""
+    try:
+        from nutils import evaluable
+        seen, stack, best = set(), [fac._array], 0
+        while stack:
+            obj = stack.pop()
+            if id(obj) in seen:
+                continue
+            seen.add(id(obj))
+            if isinstance(obj, evaluable.Monomial):
+                best = max(best, int(obj.values.shape[0].__index__()))
+            stack.extend(d for d in getattr(obj, 'dependencies', ()) if isinstance(d, evaluable.Evaluable))
+        return best
+    except Exception:
+        return None
+
+
 def monitor_factor(case, res):
     from nutils import function, evaluable
     import treelog
@@ -565,25 +590,60 @@ def monitor_factor(case, res):
             res.count('factor/' + verdict)
             if verdict == tolerance.MARGINAL:
                 res.count('marginal')
-            # derivative of the factored polynomial (Monomial._derivative); it materialises a dense
-            # ncoefficients^2 diagonal, so only small coefficient tensors are differentiated
-            big = max([int(numpy.prod(decl[n][0], dtype=int)) for n in names] + [1]) ** case['degree'] * max(1, ref.size)
-            if i == 0 and names and big > 40000:
-                res.count('factor/derivative/skipped-large')
-            elif i == 0 and names:
-                k = names[case['index'] % len(names)]
+            # derivative / linearisation of the factored polynomial (Monomial._derivative). It materialises a dense
+            # ncoefficients^2 diagonal, so only factored forms with few stored coefficients are differentiated.
+            if i == 0 and names:
+                ncoef = monomial_coefficients(fac)
+                if ncoef is None:
+                    ncoef = max([int(numpy.prod(decl[n][0], dtype=int)) for n in names] + [1]) ** case['degree'] * max(1, ref.size)
+                res.maximum('factor/max-coefficients-differentiated', min(ncoef, 2500))
+                if ncoef > 2500:
+                    res.count('factor/derivative/skipped-large')
+                    continue
+                # differentiate with respect to the argument with most axes (multi-index ravelling matters there)
+                order = sorted(names, key=lambda n: (-len(decl[n][0]), n))
+                k = order[0] if case['index'] % 3 else order[case['index'] % len(order)]
+                nd = len(decl[k][0])
+                res.count(f'factor/derivative/argument-ndim/{nd}')
+                if nd >= 3 and len(set(decl[k][0][:-1])) > 1:
+                    res.count('factor/derivative/argument-ndim>=3-unequal-leading-lengths')
+                one = dict(case, values=[AJ])
                 try:
                     dref = numpy.asarray(function.eval(function.derivative(farr, k), vals))
                     dobs = function.eval(function.derivative(fac, k), vals)
                     v2, d2 = cmp(dobs, dref, scale=float(numpy.abs(dref).max()) if dref.size else 1.)
                     res.count('factor/derivative/' + v2)
                     if v2 == tolerance.VIOLATION:
-                        res.violation('derivative(factor(f)) != derivative(f)', dict(case, values=[AJ]), f'wrt {k}: {d2}')
+                        res.violation('derivative(factor(f)) != derivative(f)', one, f'wrt {k} of shape {tuple(decl[k][0])}: {d2}')
+                        break
+                    # linearize(factor(f), k:v) against the contraction and against a finite difference of f itself
+                    V = G.rand_value(numpy.random.default_rng(case['index']), decl[k][0], 'float')
+                    vname = '_dir'
+                    lin = function.linearize(fac, {k: function.Argument(vname, tuple(decl[k][0]), float)})
+                    lobs = numpy.asarray(function.eval(lin, dict(vals, **{vname: V})))
+                    lref = numpy.tensordot(dref, V, axes=V.ndim) if V.ndim else dref * V
+                    v3, d3 = cmp(lobs, lref, scale=float(numpy.abs(lref).max()) if lref.size else 1.)
+                    res.count('factor/linearize/' + v3)
+                    if v3 == tolerance.VIOLATION:
+                        res.violation('linearize(factor(f)) != derivative(f) contracted', one, f'wrt {k} of shape {tuple(decl[k][0])}: {d3}')
+                        break
+                    d1 = fd_directional(f, decl, A, {k: V}, 2e-3)
+                    d2_ = fd_directional(f, decl, A, {k: V}, 1e-3)
+                    rich = (4 * d2_ - d1) / 3
+                    sc = max(1., float(numpy.abs(rich).max()) if rich.size else 1., float(numpy.abs(ref).max()) if ref.size else 1.)
+                    err = float(numpy.abs(lobs - rich).max()) if rich.size else 0.
+                    if err <= 1e-6 * sc:
+                        res.count('factor/linearize-vs-fd/pass')
+                    elif err <= 1e-3 * sc:
+                        res.count('factor/linearize-vs-fd/marginal')
+                        res.count('marginal-fd')
+                    else:
+                        res.violation('linearize(factor(f)) != numeric directional derivative of f', one, f'wrt {k} of shape {tuple(decl[k][0])}: max abs err {err:.3e} at scale {sc:.3e}')
                         break
                 except NotImplementedError:
                     res.count('factor/derivative/not-implemented')
                 except Exception as e:
-                    res.violation('derivative of factor(f) failed', dict(case, values=[AJ]), short_exc(e) + ' | ' + traceback.format_exc()[-600:])
+                    res.violation('derivative of factor(f) failed', one, f'wrt {k} of shape {tuple(decl[k][0])}: ' + short_exc(e) + ' | ' + traceback.format_exc()[-600:])
                     break
     # non-polynomial sibling: refused, or still equal
     if case.get('nonpoly'):
@@ -912,7 +972,7 @@ def finalize(m, tier, seed):
                replace=sub('replace/'), linearize=sub('linearize/'), spellings=sub('spellings/'), factor=sub('factor/'), values=sub('values/'),
                rejection_exception_types=sorted(m.sets.get('values/rejection-exception-types', ())),
                factor_nonpoly_other_exception_types=sorted(m.sets.get('factor/nonpoly/other-exception-types', ())),
-               marginal=c.get('marginal', 0), marginal_fd=c.get('marginal-fd', 0), generator_rejected_constructions=c.get('generator/rejected-constructions', 0),
+               maxima=dict(m.maxima), marginal=c.get('marginal', 0), marginal_fd=c.get('marginal-fd', 0), generator_rejected_constructions=c.get('generator/rejected-constructions', 0),
                cases_skipped_deadline=c.get('cases_skipped_deadline', 0), harness_exceptions=c.get('harness-exceptions', 0),
                watchdog_skipped=dict(total=c.get('watchdog-skipped', 0), **sub('watchdog-skipped/')),
                arguments_metadata_surprises=c.get('replace/arguments-metadata/surprise', 0) + c.get('linearize/arguments-metadata/surprise', 0)
@@ -922,7 +982,8 @@ def finalize(m, tier, seed):
     inc = None
     floor = {'replace/evaluations': .25 * n, 'replace/nested': .02 * n, 'replace/inside-integrand': .01 * n, 'linearize/fd-compared': .08 * n,
              'linearize/array-valued-with-array-argument': .02 * n, 'spellings/replace/agree': .04 * n, 'spellings/linearize/agree': .02 * n,
-             'factor/evaluations': .08 * n, 'values/wrong-shape/tried': .15 * n, 'values/wider-kind/tried': .05 * n}
+             'factor/evaluations': .08 * n, 'factor/derivative/argument-ndim>=3-unequal-leading-lengths': .008 * n, 'linearize/argument-ndim>=3': .004 * n,
+             'replace/argument-ndim>=3': .02 * n, 'values/wrong-shape/tried': .15 * n, 'values/wider-kind/tried': .05 * n}
     low = [f'{k}={c.get(k, 0)}<{int(v)}' for k, v in floor.items() if c.get(k, 0) < v]
     kinds_needed = ['swap', 'chain', 'rename-new', 'const', 'expr-new', 'expr-self', 'integral']
     missing = [k for k in kinds_needed if not c.get('replace/kind/' + k)]
